@@ -12,6 +12,7 @@ _UNIT_MODULES = [
     "units.u_symbols.unit",
     "units.u_collect.unit",
     "units.u_listing.unit",
+    "units.u_evalvar.unit",
     "units.u_rulemap.unit",
     "units.u_literal.unit",
     "units.u_format.unit",
@@ -32,7 +33,7 @@ REPORT_TB = ["diagn::Report contracts (units/contracts_report.py: error*/warning
 RESOLVER_TB = ["ASSUMED contracts of unverified customasm code used by U-resolver/U-iterate: asm::resolver::eval / eval_certain ('Err is loud, Ok is clean'), resolve_constant / resolve_instruction (the per-item pass contract), ResolveIterator::new/next (flags copied; the yielded node refers to defined items), Value::expect_error_or_bigint / expect_bool, DefList::get_mut (frame), derived PartialEq of expr::Value",
                "ghost event `ItemDefs::confirmed()` is produced only by resolve_once's stub clause [confirms] (a name for 'a no-guess pass answered Resolved'); termination of resolve_once's loop is not proved"]
 
-ALL_UNITS = ["U-overlap", "U-bigint", "U-constrain", "U-resolver", "U-iterate", "U-bitvec", "U-output", "U-charcount", "U-symbols", "U-rulemap", "U-literal", "U-format", "U-inspect", "U-report", "U-limits", "U-cursor", "U-collect", "U-listing"]
+ALL_UNITS = ["U-overlap", "U-bigint", "U-constrain", "U-resolver", "U-iterate", "U-bitvec", "U-output", "U-charcount", "U-symbols", "U-rulemap", "U-literal", "U-format", "U-inspect", "U-report", "U-limits", "U-cursor", "U-collect", "U-listing", "U-evalvar"]
 
 PROPERTIES = {
     "C01": {
@@ -78,9 +79,9 @@ PROPERTIES = {
         "trusted_base": ["ASSUMED: obeys_key_model::<[char; 4]>() (structural Hash/Eq of char arrays)", "vstd's HashMap::get specification", "ASSUMED contract of the R19 wrapper for HashMap::entry(..).or_insert_with(..).push(..); char::to_ascii_lowercase as an uninterpreted function"],
     },
     "C15": {
-        "units": ["U-symbols", "U-collect", "U-cursor"],
-        "claim": "Symbol lookup, for every declaration table, context and path: try_get_by_name(ctx, k, path) is None when k exceeds the depth of the context, and otherwise descends from the declaration reached by the first k components of the context (the enclosing label k-1 levels deep; the global scope for k = 0) along the dotted path; traverse/get_parent implement that descent component by component. The result depends only on the table, not on declaration order. Declarations: SymbolManager::declare fails loudly (and changes nothing) when the level skips a nesting level or the name already exists under that parent; otherwise it returns the next index, binds the name under exactly that parent, leaves every other scope's bindings untouched, keeps the table well formed and records depth and scope path of the new declaration, and never alters an earlier declaration's recorded scope. The AST walk (asm::decls::symbol::collect): every symbol node that had no declaration yet is declared with depth = its dot-level k, k never exceeds the depth of the scope in force, and its recorded scope path is the first k components of the scope left by the closest preceding symbol node (already declared or not; the global scope at the start of the file) followed by its own name; nodes declared in an earlier collection pass keep their declaration; nothing else in the AST changes. The resolver-side walks (ResolveIterator::next and next_simple): the symbol context handed out with a node is the recorded scope of the symbol node just visited, and otherwise the one in force before (it changes at symbol nodes only); next_simple visits exactly one node per call and never fails.",
-        "not_reached": "evaluation of a reference (eval_variable: built-in names, `pc.x`), constants' values, 'moving a constant changes nothing'",
+        "units": ["U-symbols", "U-collect", "U-cursor", "U-evalvar"],
+        "claim": "Symbol lookup, for every declaration table, context and path: try_get_by_name(ctx, k, path) is None when k exceeds the depth of the context, and otherwise descends from the declaration reached by the first k components of the context (the enclosing label k-1 levels deep; the global scope for k = 0) along the dotted path; traverse/get_parent implement that descent component by component. The result depends only on the table, not on declaration order. Declarations: SymbolManager::declare fails loudly (and changes nothing) when the level skips a nesting level or the name already exists under that parent; otherwise it returns the next index, binds the name under exactly that parent, leaves every other scope's bindings untouched, keeps the table well formed and records depth and scope path of the new declaration, and never alters an earlier declaration's recorded scope. The AST walk (asm::decls::symbol::collect): every symbol node that had no declaration yet is declared with depth = its dot-level k, k never exceeds the depth of the scope in force, and its recorded scope path is the first k components of the scope left by the closest preceding symbol node (already declared or not; the global scope at the start of the file) followed by its own name; nodes declared in an earlier collection pass keep their declaration; nothing else in the AST changes. The resolver-side walks (ResolveIterator::next and next_simple): the symbol context handed out with a node is the recorded scope of the symbol node just visited, and otherwise the one in force before (it changes at symbol nodes only); next_simple visits exactly one node per call and never fails. References (eval_variable, eval_variable_simple, eval_variable_certain; get_by_name): unless the reference is a plain one-component built-in name, the value returned is the value of the declaration the level rule selects from the scope in force (the global scope for the two address-free variants); an undeclared name is an error (fixed D26: a dotted path after a built-in name used to evaluate to the built-in); an Unknown value is an error when guessing is forbidden.",
+        "not_reached": "which names are built-in (eval_builtin_symbol is assumed to answer Some exactly for an uninterpreted set of names), constants' values, 'moving a constant changes nothing'",
         "trusted_base": ["ASSUMED contracts of the R8/R16 wrappers: HashMap<String, ItemRef>::get/insert/new as an uninterpreted lookup model (spec_lookup) over key texts; cloning a slice of Strings; SymbolManager::get_children_mut (frame through the returned &mut); the `span_refs` side table is dropped from the stand-in"],
     },
     "C09": {
